@@ -851,8 +851,12 @@ class FuncAnalysis:
             callees = refs
             kind = "callable-param" if refs else kind
         if not callees:
-            if isinstance(fn, ast.Attribute) and last in DATA_COPY_METHODS:
-                return fresh()
+            if isinstance(fn, ast.Attribute) and last in ("copy", "clone", "view") and recv_val:
+                # pandas: copy(deep=False) / view() share the data buffers with the receiver - not a defensive copy
+                deep = next((k.value for k in e.keywords if k.arg == "deep"), e.args[0] if (e.args and last == "copy") else None)
+                shallow = last == "view" or (deep is not None and not (isinstance(deep, ast.Constant) and deep.value is True))
+                if shallow:
+                    return recv_val
             return fresh()
         ret = frozenset()
         for g in callees:
